@@ -83,7 +83,7 @@ class C16(PureCheck):
             ev["f"] = {"k": "f", "v": enc.enc_fmtstr(FmtStr.from_str(x))}
         else:
             x = enc.build_value(inp["f"])
-        ev["res"] = fmtlib.enc_list_res(lambda: linesplit(x, inp["cols"]))
+        ev["res"] = fmtlib.enc_list_res(lambda: enc.call(linesplit, x, inp["cols"]))
         return ev
 
     def _words(self, ev):
